@@ -7,10 +7,12 @@ import scipy.sparse as sp
 from .. import coqrun as cq
 from .. import gen
 
-TECHNIQUE = 'Coq proofs (PMIS kernel unbounded; RS / CLJP all patterns <= 3/4 nodes) + exhaustive kernel/model correspondence incl. lambda buckets'
+TECHNIQUE = 'Coq proofs (PMIS kernel and RS independence unbounded; RS domination / second pass / CLJP all patterns <= 3/4 nodes) + exhaustive kernel/model correspondence incl. lambda buckets'
 LEVEL_TEXT = ('Kernel-checked theorems (Props/C13.v).  Unbounded: the PMIS kernel (parallel maximal independent set with codes '
               '-1/1/0) on every symmetric graph of any size and any weights returns only splittings whose C set is independent '
-              'and dominating, and with integer weights (ties by index) it always returns.  Bounded, decided by vm_compute over '
+              'and dominating, and with integer weights (ties by index) it always returns; first-pass Ruge-Stuben on every pattern '
+              'with symmetric transpose returns 0/1 flags with an independent coarse set, whatever order the lambda buckets '
+              'impose.  Bounded, decided by vm_compute over '
               'complete enumerations with the bound in each statement: on every directed pattern with <= 3 vertices and every symmetric graph with <= 4 the '
               'model of rs_cf_splitting (with its lambda buckets) returns 0/1 flags and marks a C point whenever there '
               'is an edge; on symmetric patterns its C set is independent and dominating; two-pass Ruge-Stuben and '
@@ -19,7 +21,7 @@ LEVEL_TEXT = ('Kernel-checked theorems (Props/C13.v).  Unbounded: the PMIS kerne
               'working-tree kernels on all 5 189 directed patterns on <= 4 vertices and symmetric graphs on 5 (both RS '
               'passes, CLJP with the glibc rand() weights and with colouring weights in binary64); validity oracles '
               'decide the property on the public RS/PMIS/PMISc/CLJP/CLJPc routines, with reproducibility per seed.')
-LEVEL_NOTE = ('RS and CLJP theorems are bounded; the PMIS kernel has unbounded theorems (shared with C18).  glibc rand() is replayed by '
+LEVEL_NOTE = ('RS domination / cover and CLJP theorems are bounded; RS independence and the PMIS kernel have unbounded theorems.  glibc rand() is replayed by '
               'the harness through ctypes (trusted).  PMIS/PMISc preprocessing (SciPy S+S^T, NumPy RNG) is not modelled: '
               'oracle only.')
 RULE = ('every directed pattern on 1..4 vertices and every symmetric graph on 5 (thorough: plus symmetric graphs on 6): '
